@@ -1,41 +1,23 @@
 import BeyondVerif.Model.InterpR
 import Mathlib.Tactic.NormNum
 /-!
-Counter-witness for the clause "an interpolated point keeps the ephemeris' frame and form" of C09,
-read as "the returned coordinates are expressed in the frame/form the point is labelled with".
+History of the clause "an interpolated point keeps the ephemeris' frame and form" of C09, read as "the
+returned coordinates are expressed in the frame/form the point is labelled with".
 
-`Ephem.interp` caches its interpolator; the interpolator holds a *copy* of the points' coordinates taken at
-the first interpolation (`np.asarray(self._orbits)`).  The `frame` / `form` setters convert the points in
-place and leave that copy alone.  In the model (`Eph`, which the correspondence shows to behave like the real
-class on such sequences) an ephemeris that has been interpolated once returns, after a conversion, the *old*
-coordinates under the *new* labels.  Replayed on the implementation by harness/props/C09.py
-(families `stale-interpolator-after-frame-set`, `stale-interpolator-after-form-set`).
+Until /repo commit 0a4f7b2 the `frame` / `form` setters of `Ephem` converted the points in place but left
+alone the copy of the coordinates held by the cached interpolator (`np.asarray(self._orbits)` taken at the
+first interpolation): an ephemeris interpolated once returned, after a conversion, the *old* coordinates
+under the *new* labels.  This file then held the kernel-checked counter-witnesses
+`stale_cache_ignores_conversion` and `stale_cache_wrong_coordinates` about the model of that code.  The setters
+now call `_refresh_interp()`, the model (`Eph.convert`) follows the fixed code, those statements are false of
+it and were removed; the full-strength theorem is `C09.interpolate_uses_current_coordinates`.  The oracle
+families `stale-interpolator-after-{frame,form}-set` of harness/props/C09.py still replay the scenario on the
+implementation.
+
+What remains here is the old concrete scenario as a regression statement about the current model.
 -/
 namespace BeyondVerif.C09W
 open BeyondVerif.R BeyondVerif.NumReal
-
-/-- **General form of the defect**: once an ephemeris has been interpolated, a conversion of its points has no
-effect whatsoever on the coordinates later interpolations return. -/
-theorem stale_cache_ignores_conversion (e : Eph) (conv : Pt → Pt) (hdate : ∀ p, (conv p).mjd = p.mjd) (d1 d2 : ℝ) :
-    (((e.interpolate d1).2.convert conv).interpolate d2).1.toOption.map (·.coord)
-      = ((e.interpolate d1).2.interpolate d2).1.toOption.map (·.coord) := by
-  have hmjd : (e.pts.map conv).map (·.mjd) = e.pts.map (·.mjd) := by
-    rw [List.map_map]; apply List.map_congr_left; intro p _; exact hdate p
-  have h2 : ∀ e' : Eph, e'.pts = e.pts → (e'.cache.isSome) →
-      ((e'.convert conv).interpolate d2).1.toOption.map (·.coord) = (e'.interpolate d2).1.toOption.map (·.coord) := by
-    intro e' hp hc
-    obtain ⟨ys, hys⟩ := Option.isSome_iff_exists.mp hc
-    unfold Eph.interpolate Eph.convert
-    simp only [hys, Option.getD_some, hp, hmjd]
-    cases interp e'.method (some e'.order) (e.pts.map (·.mjd)) ys d2 with
-    | error err => rfl
-    | ok v =>
-      cases e.pts with
-      | nil => rfl
-      | cons p0 t => rfl
-  apply h2
-  · unfold Eph.interpolate; simp only; split <;> [skip; split] <;> rfl
-  · unfold Eph.interpolate; simp only; split <;> [skip; split] <;> rfl
 
 /-- two points, one coordinate, linear interpolation -/
 def ephem0 : Eph :=
@@ -48,15 +30,15 @@ theorem interp_two (y0 y1 : ℝ) :
     interp .linear (some 8) [0, 1] [[y0], [y1]] 1 = .ok [y0 + (y1 - y0) * (1 - 0) / (1 - 0)] := by
   simp [interp, increasing, interpCall, linearCall, prevIdx, prevIdxGo, pySlice, pyBound, linRow]
 
-/-- **Concrete counter-witness**: interpolate, convert, interpolate at the node `1`: the result is labelled
-with frame `B` but carries the frame-`A` coordinate 2, whereas a fresh ephemeris of the converted points gives 4. -/
-theorem stale_cache_wrong_coordinates :
-    (((ephem0.interpolate 1).2.convert toB).interpolate 1).1.toOption.map (fun p => (p.frame, p.coord)) = some ("B", [2]) ∧
+/-- interpolate, convert, interpolate at the node `1`: frame `B` and the frame-`B` coordinate 4, the same as
+on an ephemeris converted before its first interpolation (the stale value was 2) -/
+theorem stale_scenario_now_consistent :
+    (((ephem0.interpolate 1).2.convert toB).interpolate 1).1.toOption.map (fun p => (p.frame, p.coord)) = some ("B", [4]) ∧
     ((ephem0.convert toB).interpolate 1).1.toOption.map (fun p => (p.frame, p.coord)) = some ("B", [4]) := by
   have hm : ∀ p : Pt, (toB p).mjd = p.mjd := fun _ => rfl
   constructor
-  · simp [Eph.interpolate, Eph.convert, ephem0, hm, interp_two, Except.toOption]
-    simp [toB]
+  · simp [Eph.interpolate, Eph.convert, ephem0, hm, Except.toOption]
+    simp [toB, interp_two]; norm_num
   · simp [Eph.interpolate, Eph.convert, ephem0, hm, Except.toOption]
     simp [toB, interp_two]; norm_num
 
